@@ -1120,6 +1120,46 @@ def rule5(chk, db, an, cfgname):
     chk.count('c15.5.cancel_branches', 1)
 
 
+def rule6(chk, db, cfgname):
+    chk.rule('C15.6', 'a reader that loads both a done* counter and the matching total* counter loads the total '
+             '(denominator) first: the writer resets numerators before denominators, so this order can only ever '
+             'under-report, never yield Progress() > 1')
+    import re
+    n = 0
+    for f in db.functions.values():
+        if not f.get('blocks') or not f['file'].startswith(('src/', 'include/')):
+            continue
+        loads = []
+        for b in f['blocks']:
+            for e in b['ev']:
+                if e.get('k') == 'call' and T.short(e.get('fn', '')) == 'load' and e.get('recv') is not None:
+                    r = T.strip(e['recv'])
+                    if r.get('k') == 'mem':
+                        m = re.match(r'(done|total)(\w+)$', r['n'])
+                        if m:
+                            loads.append((b['id'], e.get('i', 0), m.group(1), m.group(2), e.get('ln')))
+        sufs = {s for (_, _, k, s, _) in loads if k == 'done'} & {s for (_, _, k, s, _) in loads if k == 'total'}
+        if not sufs:
+            continue
+        g = C.Cfg(f)
+        dom = g.dominators()
+        for suf in sorted(sufs):
+            for (b, i, k, s, ln) in loads:
+                if k != 'done' or s != suf:
+                    continue
+                n += 1
+                ok = any(k2 == 'total' and s2 == suf and ((b2 == b and i2 < i) or (b2 != b and b2 in dom.get(b, ())))
+                         for (b2, i2, k2, s2, _) in loads)
+                chk.obligation(ok, {'function': f['name'][:70], 'line': ln, 'load': 'done' + suf,
+                                    'total%s loaded before' % suf: ok})
+                if not ok:
+                    chk.violation('C15.6', f, 'done%s loaded before total%s' % (suf, suf),
+                                  'the numerator is read before the denominator: if the counters are reset for a '
+                                  'smaller evaluation between the two loads the reader combines the old numerator with '
+                                  'the new denominator and Progress() exceeds 1', line=ln, cfg=cfgname)
+    chk.count('c15.6.ratio_readers', n)
+
+
 def main(chk, tier):
     import db as D
     configs = ['seq', 'par'] if tier == 'quick' else ['seq', 'par', 'seq-debug', 'par-debug']
@@ -1134,6 +1174,7 @@ def main(chk, tier):
         rule3(chk, db, an, cfgname, table)
         rule4(chk, db, an, cfgname)
         rule5(chk, db, an, cfgname)
+        rule6(chk, db, cfgname)
     n = len(configs)
     chk.floor('c15.1.skippable_calls', 80 * n)
     chk.floor('c15.1.may_skip_functions', 35 * n)
@@ -1143,6 +1184,7 @@ def main(chk, tier):
     chk.floor('c15.3.counter_ops', 15 * n)
     chk.floor('c15.3.roots', 8 * n)
     chk.floor('c15.4.factories', 5 * n)
+    chk.floor('c15.6.ratio_readers', n)
     return chk.finish(
         'Path-universal static analysis of the cancellation/progress protocol over the CFGs of every '
         'function that mentions an ExecutionContext::Impl*: (1) obligation dataflow "work may have been '
